@@ -1,0 +1,133 @@
+// Add-only test shim: exports the unexported stages of this package so that
+// an external harness can compare them one by one with a model.
+// Compiled only with `-tags verif`; it changes nothing in a normal build.
+
+//go:build verif
+// +build verif
+
+package bzip2
+
+import (
+	"github.com/dsnet/compress/internal/errors"
+	"github.com/dsnet/compress/internal/prefix"
+)
+
+// VerifCode is a prefix code as plain numbers. Val holds the code bits in
+// the order they are read/written, first bit in bit 0 (as prefix.PrefixCode).
+type VerifCode struct{ Sym, Len, Val uint32 }
+
+// VerifCRC is the block checksum of data (crc.update from zero).
+func VerifCRC(data []byte) uint32 {
+	var c crc
+	c.update(data)
+	return c.val
+}
+
+// VerifRLE1Encode runs runLengthEncoding.Write once on a fresh buffer of
+// bufSize bytes: the block produced and the number of input bytes consumed.
+func VerifRLE1Encode(bufSize int, data []byte) (block []byte, consumed int, done bool) {
+	var rle runLengthEncoding
+	rle.Init(make([]byte, bufSize))
+	n, err := rle.Write(data)
+	return append([]byte(nil), rle.Bytes()...), n, err == rleDone
+}
+
+// VerifRLE1Decode expands a whole block with runLengthEncoding.Read.
+// err is nil when the stage completed (rleDone).
+func VerifRLE1Decode(block []byte) (out []byte, err error) {
+	var rle runLengthEncoding
+	rle.Init(append([]byte(nil), block...))
+	buf := make([]byte, 4096)
+	for {
+		n, e := rle.Read(buf)
+		out = append(out, buf[:n]...)
+		if e == rleDone {
+			return out, nil
+		}
+		if e != nil {
+			return out, e
+		}
+	}
+}
+
+// VerifBWTEncode returns the transformed block and the origin pointer.
+func VerifBWTEncode(buf []byte) (out []byte, ptr int) {
+	var bwt burrowsWheelerTransform
+	out = append([]byte(nil), buf...)
+	ptr = bwt.Encode(out)
+	return out, ptr
+}
+
+// VerifBWTDecode inverts the transform (no check on ptr beyond the caller's).
+func VerifBWTDecode(buf []byte, ptr int) (out []byte) {
+	var bwt burrowsWheelerTransform
+	out = append([]byte(nil), buf...)
+	bwt.Decode(out, ptr)
+	return out
+}
+
+// VerifMTFEncode is moveToFront.Encode with the given dictionary.
+func VerifMTFEncode(dict []uint8, vals []byte) (syms []uint16, err error) {
+	defer errors.Recover(&err)
+	var mtf moveToFront
+	mtf.Init(dict, len(vals))
+	return append([]uint16(nil), mtf.Encode(vals)...), nil
+}
+
+// VerifMTFDecode is moveToFront.Decode with the given dictionary and limit.
+func VerifMTFDecode(dict []uint8, syms []uint16, blkSize int) (vals []byte, err error) {
+	defer errors.Recover(&err)
+	var mtf moveToFront
+	mtf.Init(dict, blkSize)
+	return append([]byte(nil), mtf.Decode(syms)...), nil
+}
+
+// VerifHandleDegenerateCodes runs handleDegenerateCodes on the length vector
+// (symbol i has length lens[i]) and returns the resulting code list.
+func VerifHandleDegenerateCodes(lens []uint32) []VerifCode {
+	pc := make(prefix.PrefixCodes, len(lens), maxNumSyms)
+	for i, l := range lens {
+		pc[i] = prefix.PrefixCode{Sym: uint32(i), Len: l}
+	}
+	pc = handleDegenerateCodes(pc)
+	out := make([]VerifCode, len(pc))
+	for i, c := range pc {
+		out[i] = VerifCode{c.Sym, c.Len, c.Val}
+	}
+	return out
+}
+
+// VerifGenerateLengths: SortByCount, GenerateLengths(maxPrefixBits),
+// SortBySymbol on symbols 0..len(counts)-1; returns the lengths by symbol.
+func VerifGenerateLengths(counts []uint32) (lens []uint32, err error) {
+	pc := make(prefix.PrefixCodes, len(counts))
+	for i, c := range counts {
+		pc[i] = prefix.PrefixCode{Sym: uint32(i), Cnt: c}
+	}
+	pc.SortByCount()
+	if err := prefix.GenerateLengths(pc, maxPrefixBits); err != nil {
+		return nil, err
+	}
+	pc.SortBySymbol()
+	lens = make([]uint32, len(pc))
+	for i, c := range pc {
+		lens[i] = c.Len
+	}
+	return lens, nil
+}
+
+// VerifGeneratePrefixes assigns canonical codes to the lengths (by symbol).
+func VerifGeneratePrefixes(lens []uint32) (codes []VerifCode, err error) {
+	pc := make(prefix.PrefixCodes, len(lens))
+	for i, l := range lens {
+		pc[i] = prefix.PrefixCode{Sym: uint32(i), Len: l}
+	}
+	if err := prefix.GeneratePrefixes(pc); err != nil {
+		return nil, err
+	}
+	codes = make([]VerifCode, len(pc))
+	for i, c := range pc {
+		codes[i] = VerifCode{c.Sym, c.Len, c.Val}
+	}
+	return codes, nil
+}
